@@ -92,17 +92,20 @@ def vType (d : Data) : V Data :=
   | .str "deep history" => some d
   | _ => none
 
+/-- one key/value pair of the data against a dict schema -/
+def vDictStep (spec : List (String × Bool × (Data → V Data))) (acc : V (List (String × Data)))
+    (p : String × Data) : V (List (String × Data)) :=
+  acc.bind (fun l =>
+    match spec.find? (fun s => s.1 == p.1) with
+    | none => none                                  -- wrong key
+    | some (_, _, vs) => (vs p.2).map (fun v => l ++ [(p.1, v)]))
+
 /-- a dict schema: `spec` lists (key, optional?, value schema); every data key must be in `spec`,
     every required key must be present -/
 def vDict (spec : List (String × Bool × (Data → V Data))) (d : Data) : V Data :=
   match d with
   | .map m =>
-    let step (acc : V (List (String × Data))) (p : String × Data) : V (List (String × Data)) :=
-      acc.bind (fun l =>
-        match spec.find? (fun s => s.1 == p.1) with
-        | none => none                                  -- wrong key
-        | some (_, _, vs) => (vs p.2).map (fun v => l ++ [(p.1, v)]))
-    match m.foldl step (some []) with
+    match m.foldl (vDictStep spec) (some []) with
     | none => none
     | some l =>
       if spec.all (fun s => s.2.1 || l.any (fun p => p.1 == s.1)) then some (.map l) else none
@@ -310,6 +313,24 @@ def Data.size : Nat → Data → Nat
   | f+1, .map m => 1 + (m.map (fun p => Data.size f p.2)).foldl (· + ·) 0
   | _, _ => 1
 
+/-- registering the collected states and transitions in an empty chart, then `validate()` -/
+def buildChart (c0 : Chart) (sts : List (StateDef × Option Name)) (ts : List Trans) : Except IOErr Chart :=
+  match sts.foldl (fun (acc : Except IOErr Chart) p =>
+      acc.bind (fun c => match c.addState p.1 p.2 with
+        | (.ok _, c') => .ok c'
+        | (.error _, _) => .error .statechart)) (.ok c0) with
+  | .error e => .error e
+  | .ok c1 =>
+    match ts.foldl (fun (acc : Except IOErr Chart) t =>
+        acc.bind (fun c => match c.addTransition { t with id := c.transitions.length } with
+          | (.ok _, c') => .ok c'
+          | (.error _, _) => .error .statechart)) (.ok c1) with
+    | .error e => .error e
+    | .ok c2 => if c2.validate then .ok c2 else .error .statechart
+
+def docString (sc : Data) (k : String) : Option String :=
+  match sc.get? k with | some (.str s) => some s | _ => none
+
 /-- `import_from_dict(data)` followed by `validate()` -/
 def importDict (fuel : Nat) (d : Data) : Except IOErr Chart :=
   match d.get? "statechart" with
@@ -317,26 +338,11 @@ def importDict (fuel : Nat) (d : Data) : Except IOErr Chart :=
   | some sc =>
     match sc.get? "name", sc.get? "root state" with
     | some (.str name), some root =>
-      let descr := match sc.get? "description" with | some (.str s) => some s | _ => none
-      let pre := match sc.get? "preamble" with | some (.str s) => some (mkCode s) | _ => none
       match importLoop fuel [(root, none)] [] [] with
       | .error e => .error e
       | .ok (sts, ts) =>
-        let c0 : Chart := { name := name, description := descr, preamble := pre, children := [(none, [])] }
-        let addAll := sts.foldl (fun (acc : Except IOErr Chart) p =>
-          acc.bind (fun c => match c.addState p.1 p.2 with
-            | (.ok _, c') => .ok c'
-            | (.error _, _) => .error .statechart)) (.ok c0)
-        match addAll with
-        | .error e => .error e
-        | .ok c1 =>
-          let addT := ts.foldl (fun (acc : Except IOErr Chart) t =>
-            acc.bind (fun c => match c.addTransition { t with id := c.transitions.length } with
-              | (.ok _, c') => .ok c'
-              | (.error _, _) => .error .statechart)) (.ok c1)
-          match addT with
-          | .error e => .error e
-          | .ok c2 => if c2.validate then .ok c2 else .error .statechart
+        buildChart { name := name, description := docString sc "description",
+                     preamble := (docString sc "preamble").map mkCode, children := [(none, [])] } sts ts
     | _, _ => .error .other
 
 /-- `import_from_yaml` after the YAML text has been loaded into `d` -/
